@@ -27,6 +27,9 @@ struct ReplayFile {
     trace: Vec<u8>,
     seed: u64,
     program: String,
+    /// run with one OS thread per simulated thread (the tested code keeps per-thread state: see DESIGN.md 5.3)
+    #[serde(default)]
+    os_threads: bool,
 }
 
 impl ReplayFile {
@@ -300,6 +303,71 @@ fn violations_for<'a>(out: &'a Outcome, id: &str) -> Vec<&'a world::Violation> {
     out.violations.iter().filter(|v| v.prop == id).collect()
 }
 
+/// Second engine for tested code that keeps per-thread state: fresh cases of the profile, each run in a process of its own with
+/// one OS thread per simulated thread (`Config::os_threads`). Slow (a process per case), so it only runs when the main search has
+/// seen a violation that does not reproduce in isolation. Returns the replay file of the first case that violates the property.
+fn os_thread_search(id: &str, oracle_id: &str, seed: u64, per_worker: u32, workers: u64, scratch: &std::path::Path, rdir: &std::path::Path) -> (u64, Option<(std::path::PathBuf, String)>) {
+    use proptest::strategy::ValueTree;
+    let stop = Arc::new(AtomicBool::new(false));
+    let ran = Arc::new(AtomicU64::new(0));
+    let found: Arc<Mutex<Option<(std::path::PathBuf, String)>>> = Arc::new(Mutex::new(None));
+    let exe = std::env::current_exe().expect("current_exe");
+    let _ = std::fs::create_dir_all(scratch);
+    let mut hs = vec![];
+    for w in 0..workers {
+        let (stop, ran, found, exe) = (stop.clone(), ran.clone(), found.clone(), exe.clone());
+        let (id, oracle_id, scratch, rdir) = (id.to_string(), oracle_id.to_string(), scratch.to_path_buf(), rdir.to_path_buf());
+        hs.push(std::thread::spawn(move || {
+            let prof = profiles::profile(&id);
+            let strat = gen::case_strategy(&prof);
+            let nopts = norm::NormOpts { allow_panic: prof.shape == gen::Shape::Panic };
+            let cfg = Config { failure_persistence: None, rng_algorithm: RngAlgorithm::ChaCha, ..Config::default() };
+            let rng = TestRng::from_seed(RngAlgorithm::ChaCha, &mix(seed ^ 0x05_7472_6561_6473, w));
+            let mut runner = TestRunner::new_with_rng(cfg, rng);
+            for _ in 0..per_worker {
+                if stop.load(Ordering::Relaxed) {
+                    break;
+                }
+                let raw = match strat.new_tree(&mut runner) {
+                    Ok(t) => t.current(),
+                    Err(_) => continue,
+                };
+                let case = norm::normalize(&raw, &nopts);
+                if case.op_count() == 0 {
+                    continue;
+                }
+                let rf = ReplayFile { property: oracle_id.clone(), clause: String::new(), detail: String::new(), signature: String::new(), program: case.pretty(), case, trace: vec![], seed, os_threads: true };
+                let body = serde_json::to_string_pretty(&rf).unwrap_or_default();
+                let tmp = scratch.join(format!("os-search-{}.tmp", w));
+                if std::fs::write(&tmp, &body).is_err() {
+                    continue;
+                }
+                ran.fetch_add(1, Ordering::Relaxed);
+                let run = || std::process::Command::new(&exe).arg("replay").arg(&tmp).arg("--quiet").arg("--in-process").stdout(std::process::Stdio::null()).stderr(std::process::Stdio::null()).status().map(|s| s.code() == Some(1)).unwrap_or(false);
+                // (twice: the verdict has to be a property of the case, not of one run)
+                if run() && run() {
+                    let mut h = std::collections::hash_map::DefaultHasher::new();
+                    body.hash(&mut h);
+                    let _ = std::fs::create_dir_all(&rdir);
+                    let keep = rdir.join(format!("{}-osthreads-{:016x}.json", oracle_id, h.finish()));
+                    let _ = std::fs::write(&keep, &body);
+                    let mut f = found.lock().unwrap();
+                    if f.is_none() {
+                        *f = Some((keep, rf.program.clone()));
+                    }
+                    stop.store(true, Ordering::Relaxed);
+                    break;
+                }
+            }
+        }));
+    }
+    for h in hs {
+        let _ = h.join();
+    }
+    let f = found.lock().unwrap().take();
+    (ran.load(Ordering::Relaxed), f)
+}
+
 fn run_worker(id: &str, oracle_id: &str, seed: u64, worker: u64, cases: u32, stop: Arc<AtomicBool>, strict_harness: bool, known: Arc<Vec<KnownFinding>>, progress: Arc<AtomicU64>) -> (WorkerStats, Option<Found>) {
     let prof = profiles::profile(id);
     let strat = gen::case_strategy(&prof);
@@ -391,7 +459,7 @@ fn run_worker(id: &str, oracle_id: &str, seed: u64, worker: u64, cases: u32, sto
                 // in the library is a plausible way to break a property) the shrinking runs below may never finish
                 let dir = verif_dir().join("pending").join(&id_owned);
                 let _ = std::fs::create_dir_all(&dir);
-                let rf = ReplayFile { property: v.prop.clone(), clause: v.clause.clone(), detail: v.detail.clone(), signature: signature(&case, v), case: case.clone(), trace: out.trace.clone(), seed, program: case.pretty() };
+                let rf = ReplayFile { property: v.prop.clone(), clause: v.clause.clone(), detail: v.detail.clone(), signature: signature(&case, v), case: case.clone(), trace: out.trace.clone(), seed, program: case.pretty(), os_threads: false };
                 let _ = std::fs::write(dir.join(format!("unshrunk-{}.json", worker)), serde_json::to_string(&rf).unwrap_or_default());
             }
             counting.set(false);
@@ -574,7 +642,7 @@ fn minimise(id: &str, clause: &str, case: &Case) -> Case {
 
 fn write_replay(id: &str, case: &Case, out: &Outcome, v: &world::Violation, seed: u64, dir: &std::path::Path) -> std::path::PathBuf {
     let sig = signature(case, v);
-    let rf = ReplayFile { property: v.prop.clone(), clause: v.clause.clone(), detail: v.detail.clone(), signature: sig, case: case.clone(), trace: out.trace.clone(), seed, program: case.pretty() };
+    let rf = ReplayFile { property: v.prop.clone(), clause: v.clause.clone(), detail: v.detail.clone(), signature: sig, case: case.clone(), trace: out.trace.clone(), seed, program: case.pretty(), os_threads: false };
     let body = serde_json::to_string_pretty(&rf).unwrap();
     let mut h = std::collections::hash_map::DefaultHasher::new();
     body.hash(&mut h);
@@ -627,7 +695,10 @@ fn cmd_replay(path: &str, quiet: bool) -> i32 {
             return 2;
         }
     };
-    let (case, out) = rf.run(&RunOpts { record_history: !quiet, backtraces: !quiet, verbose: false, ..Default::default() });
+    let (case, out) = rf.run(&RunOpts { record_history: !quiet, backtraces: !quiet, verbose: false, os_threads: rf.os_threads, ..Default::default() });
+    if rf.os_threads && !quiet {
+        println!("(run with one OS thread per simulated thread)");
+    }
     if !quiet {
         print_outcome(&case, &out);
     }
@@ -747,6 +818,7 @@ fn cmd_check(id: &str, tier: &str, cases_override: Option<u32>, workers: usize, 
         }
     }
     let mut violations = 0;
+    let mut os_stage_cases = 0u64;
     if let Some(f) = found.into_iter().min_by_key(|f| serde_json::to_string(&f.raw).map(|s| s.len()).unwrap_or(usize::MAX)) {
         let allow_panic = profiles::profile(id).shape == gen::Shape::Panic;
         let case = norm::normalize(&f.raw, &norm::NormOpts { allow_panic });
@@ -770,7 +842,62 @@ fn cmd_check(id: &str, tier: &str, cases_override: Option<u32>, workers: usize, 
             }
         } else {
             println!("note: a worker reported {} but the case does not reproduce it when it is run on its own: some state outlives an execution (thread-local or static state in the tested code is shared by all simulated threads of a worker and is not reset between cases)", f.reason);
-            UNREPRODUCED.store(true, Ordering::Relaxed);
+            // second opinion: the failing cases the workers kept, each in a process of its own with one OS thread per simulated
+            // thread, where per-thread state of the tested code behaves as it does for real threads
+            let mut cands: Vec<ReplayFile> = vec![];
+            if let Ok(rd) = std::fs::read_dir(&pending) {
+                let mut files: Vec<_> = rd.filter_map(|e| e.ok()).map(|e| e.path()).filter(|p| p.extension().map(|x| x == "json").unwrap_or(false)).collect();
+                files.sort();
+                for p in files {
+                    if let Some(rf) = std::fs::read_to_string(&p).ok().and_then(|b| serde_json::from_str::<ReplayFile>(&b).ok()) {
+                        cands.push(rf);
+                    }
+                }
+            }
+            let exe = std::env::current_exe().expect("current_exe");
+            let mut confirmed = false;
+            for (n, mut rf) in cands.into_iter().enumerate() {
+                rf.os_threads = true;
+                rf.property = oracle_id.clone();
+                let body = serde_json::to_string_pretty(&rf).unwrap_or_default();
+                let tmp = pending.join(format!("os-{}.tmp", n));
+                if std::fs::write(&tmp, &body).is_err() {
+                    continue;
+                }
+                let hit = (0..2).any(|_| std::process::Command::new(&exe).arg("replay").arg(&tmp).arg("--quiet").arg("--in-process").stdout(std::process::Stdio::null()).stderr(std::process::Stdio::null()).status().map(|s| s.code() == Some(1)).unwrap_or(false));
+                if hit {
+                    let mut h = std::collections::hash_map::DefaultHasher::new();
+                    body.hash(&mut h);
+                    let _ = std::fs::create_dir_all(&rdir);
+                    let keep = rdir.join(format!("{}-osthreads-{:016x}.json", rid, h.finish()));
+                    let _ = std::fs::write(&keep, &body);
+                    println!("note: reproduced in a process of its own with one OS thread per simulated thread (not shrunk):\n{}", rf.program);
+                    violations = 1;
+                    if violation_line.is_none() {
+                        violation_line = Some(format!("VIOLATION property={} replay={}", rid, keep.display()));
+                    }
+                    confirmed = true;
+                    break;
+                }
+            }
+            if !confirmed {
+                // ... and a search of its own in that mode (the cases above were selected under the wrong semantics)
+                let per_worker = if tier == "thorough" { 20_000 } else { 3_000 };
+                let (n, f) = os_thread_search(id, &oracle_id, seed, per_worker, 16, &pending, &rdir);
+                println!("{} os-thread stage: {} cases, each in a process of its own with one OS thread per simulated thread", rid, n);
+                os_stage_cases = n;
+                if let Some((keep, program)) = f {
+                    println!("note: violated in that mode (not shrunk):\n{}", program);
+                    violations = 1;
+                    if violation_line.is_none() {
+                        violation_line = Some(format!("VIOLATION property={} replay={}", rid, keep.display()));
+                    }
+                    confirmed = true;
+                }
+            }
+            if !confirmed {
+                UNREPRODUCED.store(true, Ordering::Relaxed);
+            }
         }
     }
     for k in known.iter().filter(|k| k.status == "open" && k.property == id) {
@@ -795,6 +922,7 @@ fn cmd_check(id: &str, tier: &str, cases_override: Option<u32>, workers: usize, 
             "samples": agg.samples.iter().take(4).collect::<Vec<_>>(),
             "class_histogram": agg.labels,
             "scheduling_decisions": agg.steps,
+            "os_thread_stage_cases": os_stage_cases,
             "inconclusive_step_bound": agg.step_bound,
             "harness_unexplained_hangs": agg.harness,
             "ambiguous_attributions": agg.ambiguous,
@@ -901,7 +1029,7 @@ fn supervise_check(id: &str, args: &[String]) -> i32 {
     let rdir = home.join("replays").join(id);
     let mut crashing: Option<std::path::PathBuf> = None;
     for (n, case) in cases.iter().enumerate() {
-        let rf = ReplayFile { property: id.to_string(), clause: "search-process-died".to_string(), detail: format!("the search process died ({}) while a worker was running this case", status), signature: String::new(), case: case.clone(), trace: vec![], seed: 0, program: case.pretty() };
+        let rf = ReplayFile { property: id.to_string(), clause: "search-process-died".to_string(), detail: format!("the search process died ({}) while a worker was running this case", status), signature: String::new(), case: case.clone(), trace: vec![], seed: 0, program: case.pretty(), os_threads: false };
         let tmp = pending.join(format!("crumb-{}.json", n));
         let _ = std::fs::write(&tmp, serde_json::to_string(&rf).unwrap_or_default());
         let st = std::process::Command::new(&exe).arg("replay").arg(&tmp).arg("--quiet").arg("--in-process").stdout(std::process::Stdio::null()).stderr(std::process::Stdio::null()).status();
@@ -992,6 +1120,29 @@ fn main() {
                     },
                     Err(_) => 2,
                 }
+            }
+        }
+        Some("os-search") => {
+            // dv os-search <ID> [--oracle ID] [--cases N]: the os-thread stage on its own (used to validate that mode on the unchanged tree)
+            let id = args.get(2).cloned().unwrap_or_default();
+            if !profiles::ALL.contains(&id.as_str()) {
+                eprintln!("unknown property {}", id);
+                std::process::exit(2);
+            }
+            let oracle = get("--oracle").unwrap_or_else(|| id.clone());
+            let per_worker = get("--cases").and_then(|s| s.parse().ok()).unwrap_or(3000u32);
+            let seed = std::env::var("VERIF_SEED").ok().and_then(|s| s.parse::<u64>().ok()).unwrap_or(0);
+            let home = verif_dir();
+            let t0 = Instant::now();
+            let (n, f) = os_thread_search(&id, &oracle, seed, per_worker, 16, &home.join("pending").join(format!("os-{}", oracle)), &home.join("replays").join(&oracle));
+            println!("{} os-thread stage: {} cases in {:.1}s", oracle, n, t0.elapsed().as_secs_f64());
+            let _ = std::fs::remove_dir_all(home.join("pending").join(format!("os-{}", oracle)));
+            match f {
+                Some((keep, program)) => {
+                    println!("{}\nVIOLATION property={} replay={}", program, oracle, keep.display());
+                    1
+                }
+                None => 0,
             }
         }
         Some("focus") => {
